@@ -57,6 +57,15 @@ func runStoreHist(op M) any {
 	}
 	defer os.RemoveAll(root)
 	_ = os.WriteFile(filepath.Join(root, "sentinel"), []byte("s"), 0o644)
+	// the temporary directory of the process is not the configured directory: nothing is created
+	// there (it is aged, so that a file that came and went shows), and a store does not need it
+	tmpOut := filepath.Join(root, "sentinel-tmp")
+	aged := time.Now().Add(-72 * time.Hour)
+	if asStr(op["tmp"]) != "missing" {
+		_ = os.Mkdir(tmpOut, 0o755)
+		_ = os.Chtimes(tmpOut, aged, aged)
+	}
+	_ = os.Setenv("TMPDIR", tmpOut)
 	dir := filepath.Join(root, filepath.FromSlash(asStr(op["sub"])))
 	fs := &storage.FileSystem{Options: storage.FileSystemOptions{Path: dir}}
 	stored := map[string]*sbom.Document{}
@@ -137,12 +146,15 @@ func runStoreHist(op M) any {
 	// confinement: nothing but the store directory chain and the sentinel under the root, and
 	// only entry files (and leftovers of failed stores) directly inside the directory
 	var stray []any
+	if st, err := os.Stat(tmpOut); err == nil && st.ModTime().Unix() != aged.Unix() {
+		stray = append(stray, "(something was created in the temporary directory of the process, "+tmpOut+")")
+	}
 	_ = filepath.Walk(root, func(p string, info os.FileInfo, err error) error {
 		if err != nil || p == root {
 			return nil
 		}
 		rel, _ := filepath.Rel(root, p)
-		if rel == "sentinel" {
+		if rel == "sentinel" || rel == "sentinel-tmp" {
 			return nil
 		}
 		if info.IsDir() {
@@ -162,6 +174,16 @@ func runStoreHist(op M) any {
 
 // ChildMain serves one request read from stdin and writes the result to stdout.
 func ChildMain() {
+	// a child whose parent is gone (a check that was interrupted) has nobody to report to
+	go func() {
+		parent := os.Getppid()
+		for {
+			time.Sleep(2 * time.Second)
+			if os.Getppid() != parent {
+				os.Exit(3)
+			}
+		}
+	}()
 	var req M
 	if err := json.NewDecoder(os.Stdin).Decode(&req); err != nil {
 		fmt.Println(`"harness: bad request"`)
@@ -373,6 +395,9 @@ func storeGen(g *G, tier string) []M {
 				M{"s": "retrieve", "id": pair[0]}, M{"s": "retrieve", "id": pair[1]})
 		}
 		ops = append(ops, M{"op": "storeHist", "sub": g.Pick([]string{"store", "a/b/store", "s p/dir"}), "steps": steps})
+		if i%3 == 1 {
+			ops[len(ops)-1]["tmp"] = "missing" // the process has no usable temporary directory
+		}
 	}
 	return ops
 }
